@@ -685,6 +685,29 @@ func (c *caseCtx) senderScript(r mutRow) (ctrl []byte, data []byte) {
 			db.Write(chunkFrame(keyE, 0, src0[:1+c.rng.Intn(8)], true, -1))
 			cb.Write(encode(transfer.FileEnd{StreamID: keyE}))
 			return cb.Bytes(), db.Bytes()
+		case "chunksize-huge":
+			// a chunk size far beyond the file (and beyond anything that will ever be sent in one frame)
+			b2 := begin
+			b2.ChunkSize = uint32([]uint64{1 << 31, 1<<32 - 1, 1 << 30}[c.rng.Intn(3)])
+			cb.Write(encode(b2))
+			db.Write(chunkFrame(key0, 0, src0, true, -1))
+			cb.Write(encode(transfer.FileEnd{StreamID: key0}))
+			c.restOfTransfer(&cb, &db, 1)
+			return cb.Bytes(), db.Bytes()
+		case "begin-after-done":
+			// the first file is delivered completely, then announced again
+			cb.Write(enc)
+			for off := 0; off < len(src0); off += int(c.chunk) {
+				hi := off + int(c.chunk)
+				if hi > len(src0) {
+					hi = len(src0)
+				}
+				db.Write(chunkFrame(key0, uint32(off/int(c.chunk)), src0[off:hi], true, -1))
+			}
+			cb.Write(encode(transfer.FileEnd{StreamID: key0}))
+			cb.Write(enc)
+			c.restOfTransfer(&cb, &db, 1)
+			return cb.Bytes(), db.Bytes()
 		case "chunksize-0":
 			b2 := begin
 			b2.ChunkSize = 0
@@ -1011,13 +1034,27 @@ func runSenderCase(ctx *caseCtx, r mutRow, emit func(mutOutcome)) {
 		switch r.Type {
 		case "FileDone":
 			enc := encode(transfer.FileDone{StreamID: key, OK: false, ErrMsg: "boom"})
-			reply = mutateBytes(ctx.rng, enc, r.Mutation, 10, 2)
+			if r.Mutation == "filedone-twice" {
+				// the same file acknowledged twice (once the sender has had time to send it)
+				time.Sleep(time.Duration(50+ctx.rng.Intn(200)) * time.Millisecond)
+				ok := encode(transfer.FileDone{StreamID: key, OK: true})
+				reply = append(append([]byte(nil), ok...), ok...)
+			} else {
+				reply = mutateBytes(ctx.rng, enc, r.Mutation, 10, 2)
+			}
 		case "FileResumeInfo":
 			enc := encode(transfer.FileResumeInfo{FileID: f0.ID, StreamID: key, TotalChunks: 3, Bitmap: []byte{0x03}, LastVerifiedChunk: 1, LastVerifiedHash: 7})
 			switch r.Mutation {
 			case "count-inconsistent":
 				enc = encode(transfer.FileResumeInfo{FileID: f0.ID, StreamID: key, TotalChunks: uint32([]int{1, 4, 1 << 30}[ctx.rng.Intn(3)]), Bitmap: []byte{0xff, 0xff}, LastVerifiedChunk: 900})
 				reply = enc
+			case "count-consistent-huge":
+				// chunk count and bitmap length agree with each other, the bitmap itself never comes
+				total := uint32([]uint64{1 << 31, 1<<32 - 8, 1 << 29}[ctx.rng.Intn(3)])
+				full := encode(transfer.FileResumeInfo{FileID: f0.ID, StreamID: key, TotalChunks: total, Bitmap: []byte{0, 0, 0, 0}, LastVerifiedChunk: 0})
+				lenOff := 1 + 2 + len(f0.ID) + 8 + 4
+				binary.BigEndian.PutUint32(full[lenOff:], (total+7)/8)
+				reply = full[:lenOff+4+3]
 			case "length-2^31", "length-2^32-1":
 				reply = mutateBytes(ctx.rng, enc, r.Mutation, 1+2+len(f0.ID)+8+4, 4)
 			default:
